@@ -3,6 +3,7 @@ package protoprint
 import (
 	"fmt"
 	"slices"
+	"strconv"
 	"strings"
 
 	"github.com/pentops/j5/internal/j5s/protoprint/optionreflect"
@@ -215,6 +216,19 @@ func (fb *fileBuilder) printFieldStyle(name string, number int32, elem protorefl
 		return err
 	}
 
+	if field, ok := elem.(protoreflect.FieldDescriptor); ok && !field.IsExtension() {
+		// a JSON name other than the default derived from the field name
+		// must be spelled out or it is lost when the text is parsed again.
+		if jsonName := field.JSONName(); jsonName != "" && jsonName != defaultJSONName(string(field.Name())) {
+			quoted := strconv.Quote(jsonName)
+			options = append([]parsedOption{{
+				inline:        true,
+				inlineString:  &quoted,
+				qualifiedName: "json_name",
+			}}, options...)
+		}
+	}
+
 	fb.leadingComments(srcLoc)
 
 	if len(options) == 0 {
@@ -253,4 +267,23 @@ func (fb *fileBuilder) printFieldStyle(name string, number int32, elem protorefl
 	fb.trailingComments(srcLoc)
 
 	return nil
+}
+
+// defaultJSONName is protoc's lowerCamelCase conversion of a field name.
+func defaultJSONName(name string) string {
+	out := make([]byte, 0, len(name))
+	upperNext := false
+	for i := 0; i < len(name); i++ {
+		c := name[i]
+		if c == '_' {
+			upperNext = true
+			continue
+		}
+		if upperNext && 'a' <= c && c <= 'z' {
+			c -= 'a' - 'A'
+		}
+		upperNext = false
+		out = append(out, c)
+	}
+	return string(out)
 }
